@@ -181,12 +181,15 @@ func buildSnapshotStreamOpt(r *rand.Rand, name string, kind, rowsN, tail int, bi
 					return txn.QueryAt(o, func(row column.Row) error {
 						row.SetInt32("n", int32(1000+k))
 						row.MergeString("s", "+")
-						if bigCommit && k == 0 {
-							row.SetString("s", strings.Repeat("z", 60000))
-						}
 						return nil
 					})
 				})
+				if bigCommit && k == 0 {
+					// a commit of its own (a put after the resizing merge of the same row in ONE transaction is finding D12)
+					c.Query(func(txn *column.Txn) error {
+						return txn.QueryAt(o, func(row column.Row) error { row.SetString("s", strings.Repeat("z", 60000)); return nil })
+					})
+				}
 				if huge && k == 0 && len(offs) > 4 {
 					// one transaction alternating between a row of chunk 0 and a row of chunk 1, > 1 MB per
 					// chunk: each of its two commits spans more than one s2 block of the recorded log
